@@ -524,10 +524,11 @@ PROPS["C08"] = {
                                 "httpcluster_Runner_setStateError", "composite_Runner_Run", "composite_Runner_Reload",
                                 "httpserver_Runner_Run", "httpserver_Runner_Reload", "httpserver_Runner_shutdown",
                                 "httpcluster_Runner_Run", "httpcluster_Runner_shutdown", "httpcluster_Runner_processConfigUpdate"],
-    "lean_modules": ["GoSup.Props.C08"],
-    "theorems": ["GoSup.Props.C08.c08_walk", "GoSup.Props.C08.edge_apply"],
+    "lean_modules": ["GoSup.Props.C08", "GoSup.Props.C08L", "GoSup.Tie.Lts"],
+    "theorems": ["GoSup.Props.C08.c08_walk", "GoSup.Props.C08.edge_apply", "GoSup.Props.C08L.c08_result_comp",
+                 "GoSup.Props.C08L.c08_result_http"],
     "ties": ["GoSup.Props.C08.tie_setState_sites", "GoSup.Props.C08.tie_error_reachable", "GoSup.Props.C08.tie_table_documented",
-             "GoSup.Props.C08.tie_isRunning"],
+             "GoSup.Props.C08.tie_isRunning", "GoSup.Tie.Lts.tie_comp_table", "GoSup.Tie.Lts.tie_http_table"],
     "legs": [{"name": "httpsrv", "cmd": "httpsrv"}, {"name": "composite", "cmd": "composite"}, {"name": "cluster", "cmd": "cluster"}],
     "rule": "state streams of the real composite, HTTP server and HTTP cluster runners over the histories of the composite, httpsrv and "
             "cluster legs "
@@ -540,7 +541,10 @@ PROPS["C08"] = {
     "level_text": "Theorem: for ANY sequence of FSM calls in which SetState is only used with Error, over ANY transition table, the "
                   "successive states are a walk in the lifecycle graph with only Error entered out of turn; regenerated table theorems "
                   "(decide +kernel) show the runners' SetState call sites, IsRunning bodies and the extracted transitions.Typical satisfy "
-                  "the hypotheses; streams and the result clause are checked on traces of the real runners.",
+                  "the hypotheses. Result clause, for every interleaving of the concurrent models CompLts (composite) and HttpLts (HTTP "
+                  "server): the step that makes Run() return leaves the state machine in Stopped exactly when the result is nil and "
+                  "in Error for every other result (c08_result_comp, c08_result_http). Subscriber streams and the cluster's result "
+                  "clause are checked on traces of the real runners.",
     "level_note": COMMON_NOTE,
     "design_ref": "DESIGN.md section 5, C08",
 }
